@@ -135,7 +135,8 @@ ADDENDA = {
          'the clamps; helper functions an unpacker was split into are analysed as part of it; initialisers clean up only an '
          'object they have wiped (R02.6); a table with one slot per used codebook entry is indexed by the used-entry counter '
          '(R02.7); the capacity of the decoder\'s channel buffers does not depend on the half-rate flag sampled at initialisation '
-         '(R02.8).',
+         '(R02.8); every codebook table the decoders read through is built on every successful initialisation of a book that has '
+         'entries (R02.9).',
          ' + relational pair-invariant analysis (affine bounds) for the returned/current window'),
  'C03': ('Search loops that run until a sentinel changes have no iteration that leaves the state unchanged (R03.2: K4 '
          'refinement of the exit conditions in the stuck state), and every libvorbis function vorbisfile hands a vorbis_info to '
@@ -144,14 +145,15 @@ ADDENDA = {
          'packet is read only after a positive packetout/packetpeek filled it (R03.8, K4 forked on the result class); a page '
          'object is used only while libogg\'s sync buffer still holds it -- valid from a fetch that found a page until the next '
          'call that can reach ogg_sync_buffer, with the fetch helpers verified rather than assumed (R03.9); per-link tables are '
-         'indexed by the link counter only where the handle is known seekable (R03.10).',
+         'indexed by the link counter only where the handle is known seekable (R03.10); recursion depth in vorbisfile.c is bounded '
+         'by a constant (R03.11; the per-link recursion of the open-time link scan is a recorded known finding).',
          ' + stuck-state analysis of sentinel loops + null-entry analysis of the info accessors'),
  'C05': ('The managed-bitrate path hands out one of the PACKETBLOBS encodings (R05.6), residue entry numbers are mixed-radix '
          'numbers with digits below the radix (R05.7), and submap bundles pair each slot with one channel identically in '
          'encoder and decoder (R05.8); every residue entry handed to the book encoder passed a non-zero codeword-length test '
          'or the nearest-used-entry search on every path (R05.9); the buffer vorbis_analysis hands out directly is a slot of the '
          'blob table the mapping writes (R05.10).', ' + K4 value analysis of blob choice and codeword digits + must-path analysis of the quantiser'),
- 'C07': ('The window history of vorbis_synthesis_blockin is recorded before anything reads it, also for track-only blocks '
+ 'C07': ('Every accumulation of block sizes into a position is last/4 + this/4, as in the decoder (R07.12). The window history of vorbis_synthesis_blockin is recorded before anything reads it, also for track-only blocks '
          '(R07.8); events performed inside helper functions count (a helper that must restart the decoder, may move the stream); '
          'the data offsets seeks start from see their link\'s header fetch as last writer of the stream position (R07.9, '
          'provenance analysis); a scratch ogg_stream_state is live whenever it is used (R07.10, typestate); a negative position '
@@ -172,12 +174,14 @@ ADDENDA = {
  'C10': ('_fetch_headers performs the stream set-up of the link in every call that reports success, whatever state the handle '
          'was entered in (R10.4); serial numbers in the link table see their link\'s header fetch (R10.5); a fetched page is '
          'submitted to a stream state at most once, helpers summarised (R10.6: no spurious hole); the half-rate request '
-         'survives the re-creation of the info at a streaming link boundary (R10.7).',
+         'survives the re-creation of the info at a streaming link boundary (R10.7); serial numbers are compared as signed values, '
+         'the way the link table stores them (R10.8).',
          ' + libogg page typestate (K2 flags with K5 entry states) + provenance analysis'),
  'C11': ('The lazily filled floor-0 cache is read only after the fill (R11.6); the arena reset may sit in a helper that performs '
          'it on every path.', ''),
  'C12': ('A lazy-initialisation gate is never left set by a failed initialisation (R12.8: the decode book table), buffered '
-         'input is dropped only with the offset re-defined (R12.7).', ' + gate-reset path rule over helpers and their callers'),
+         'input is dropped only with the offset re-defined (R12.7); every loop around the packet fetch leaves on each failure '
+         'code the fetch can return, taken from the K5 outcome sets (R12.10).', ' + gate-reset path rule over helpers and their callers'),
  'C13': ('Counts cover the elements filled (R13.8), arrays of owners are released element-wise (R13.9), live elements are not '
          're-initialised (R13.10); the info a live decoder refers to is not cleared under it (R13.11, typestate); a file-local '
          'helper may leave a freed pointer to callers that wipe the container; the set-up step that freezes the staged '
